@@ -120,7 +120,7 @@ def register(reg):
     reg.specfun('FULLMATCH', [('s', 'Scanner'), ('v', 'text')], 'opt[str]')
     reg.contract('lark.lexer:Scanner.fullmatch', assumed=True, kind='method', pure=True, params={'self': 'Scanner', 'text': 'text'}, returns='opt[str]',
                  ensures=['result == FULLMATCH(self, text)'])
-    reg.contract('lark.lexer:UnlessCallback.__call__', serves=['C07', 'C06'], kind='method',
+    reg.contract('lark.lexer:UnlessCallback.__call__', serves=['C07', 'C06', 'C15'], kind='method',
                  params={'self': 'UnlessCallback', 't': 'Token'}, returns='Token', modifies=['t'],
                  ensures=['result is t',
                           # retyped iff the WHOLE value is one of the attached strings; value and positions untouched
